@@ -222,6 +222,7 @@ Definition resetCore_binds : list (field * val) :=
     ("filename", v_null); ("line", VS []); ("lineIsTrueStr", VB false);
     ("lineNum", v_num0); ("fileLineNum", v_num0); ("fields", VNil); ("fieldsIsTrueStr", VNil);
     ("numFields", v_num0); ("haveFields", VB false);
+    ("reparseCSV", VB false); ("fieldNames", VNil); ("fieldIndexes", VNil);
     ("matchStart", v_num0); ("matchLength", v_num0); ("argc", v_num0);
     ("exitStatus", VI 0) ].
 Definition m_resetCore (s : state) : state := set_all resetCore_binds s.
@@ -540,11 +541,6 @@ Definition observable (en : entry) (f : field) : bool :=
   | Some _ => true
   end.
 Definition obs_fields (en : entry) : list field := filter (observable en) all_fields.
-
-(* the fields of the pinned tree that are written during a run and reset nowhere (F-C14-1, F-C14-2) *)
-Definition leaking_fields : list field := ["fieldNames"; "fieldIndexes"; "reparseCSV"].
-Definition obs_fields_partial (en : entry) : list field :=
-  filter (fun f => negb (mem f leaking_fields)) (obs_fields en).
 
 Definition diff_on (l : list field) (s1 s2 : state) : list field :=
   filter (fun f => negb (val_eqb (s1 f) (s2 f))) l.
